@@ -230,8 +230,10 @@ def prove(pc, goal, timeout_ms=4000):
         with tempfile.NamedTemporaryFile("w", suffix=".smt2", delete=False, dir=os.environ.get("HV_SCRATCH") or None) as f:
             f.write(smt)
             path = f.name
-        out = subprocess.run([CVC5, "--strings-exp", f"--tlimit={timeout_ms}", path], capture_output=True, text=True,
-                             timeout=timeout_ms / 1000 + 5).stdout.strip()
+        # cvc5 gets a longer budget than z3: it is the last resort, and a verdict must not flip to `unknown` when all cores are busy
+        climit = max(timeout_ms * 5, 20000)
+        out = subprocess.run([CVC5, "--strings-exp", f"--tlimit={climit}", path], capture_output=True, text=True,
+                             timeout=climit / 1000 + 5).stdout.strip()
         os.unlink(path)
     except Exception as e:  # noqa: BLE001
         out = f"error: {e}"
@@ -693,7 +695,8 @@ class Executor:
         for s, vals in outs:
             obj = vals[0]
             if isinstance(e.slice, ast.Slice):
-                raise Unsupported("slicing")
+                res += self.slice_of(s, obj, e.slice)
+                continue
             idx = vals[1]
             r = self.model.subscript(self, s, obj, idx, e)
             if r is not NotImplemented:
@@ -717,6 +720,34 @@ class Executor:
                 continue
             raise Unsupported(f"subscript on {obj!r}")
         return res + raised
+
+    def slice_of(self, st, obj, sl):
+        """s[lo:hi] on a string with bounds that are absent / None or provably non-negative integers (negative bounds count
+        from the end in Python and are outside the subset): z3's str.substr clips at the end of the string like Python does."""
+        def bound(node):
+            if node is None or (isinstance(node, ast.Constant) and node.value is None):
+                return None, st
+            ps = self.ev(st, node)
+            if len(ps) != 1 or ps[0].kind != "normal" or not (is_z3(ps[0].val) and z3.is_int(ps[0].val)):
+                raise Unsupported("slicing (bound)")
+            v = z3.simplify(ps[0].val)
+            chk = z3.Solver()
+            chk.set("timeout", 2000)
+            chk.add(*ps[0].st.pc)
+            chk.add(v < 0)
+            if chk.check() != z3.unsat:
+                raise Unsupported("slicing (bound not provably non-negative)")
+            return v, ps[0].st
+        if not (is_z3(obj) and z3.is_string(obj)):
+            raise Unsupported("slicing")
+        step = sl.step
+        if not (step is None or (isinstance(step, ast.Constant) and step.value in (None, 1))):
+            raise Unsupported("slicing (step)")
+        lo, st = bound(sl.lower)
+        hi, st = bound(sl.upper)
+        lo = z3.IntVal(0) if lo is None else lo
+        n = (z3.Length(obj) - lo) if hi is None else (hi - lo)
+        return [Path(st, "normal", z3.SubString(obj, lo, n))]
 
     def ev_Call(self, st, e):
         if any(isinstance(a, ast.Starred) for a in e.args) or any(k.arg is None for k in e.keywords):
